@@ -41,7 +41,10 @@ def run(tier, seed):
                         only_ops=lambda op, clause: op["op"] in ("Collect", "CollectASM", "Tally"))
     # the collectors must not carry anything from one slice to the next: the same scripts, one process, two orders
     key = lambda s: pipeline.jkey(s)
-    for label, order in (("sorted", sorted(scripts, key=key)), ("reversed", sorted(scripts, key=key, reverse=True))):
+    seq = sorted(scripts, key=key)
+    if tier == "quick":
+        seq = seq[::2]
+    for label, order in (("sorted", seq), ("reversed", seq[::-1])):
         tc.run_and_validate(rep, order, "all slices collected one after another in one process (%s order)" % label, procs=1,
                             batch_lines=3000, only_ops=lambda op, clause: op["op"] in ("Collect", "CollectASM", "Tally"))
     rep.extra["exhaustive"] = True
